@@ -506,9 +506,9 @@ func init() {
 			{Pkg: "fasthttp", Func: "vhC35TempFiles", NoNative: true},
 		},
 		Assume: []string{
-			"temporary-file half only. mime/multipart creates temporary files only for parts beyond 16 MiB, so under the engine fasthttp's readMultipartForm (its call into mime/multipart) and (*multipart.Form).RemoveAll are replaced by harness stubs (//verif:stub): reading a form consumes the framed body and yields a Form standing for one temporary file, RemoveAll marks it removed; when fasthttp parses, caches, hands out and drops the form is the real code, on the real serve loop",
-			"a multipart POST (well-formed or malformed) followed by a second request in the same or the next segment; DisablePreParseMultipartForm and ReduceMemoryUsage on/off; the handler ignores the form, asks for it once or twice, or removes the files itself; obligations: nothing is left when the next request is dispatched or when the connection is done, every form is removed, at most one parse per request",
-			"the WriteMultipartForm / ReadForm round trip (all inside mime/multipart and os), streamed multipart bodies, timed-out requests and the real temporary files are outside; choices only; not re-run natively (the stubs only exist under the engine)",
+			"temporary-file half only. mime/multipart creates temporary files only for parts beyond 16 MiB, so under the engine (*multipart.Reader).ReadForm and (*multipart.Form).RemoveAll are replaced by harness stubs (//verif:stub): the form is read with the real mime/multipart part reader (NextPart over the framed body, interpreted), a file part stands for one temporary file, RemoveAll marks it removed; when fasthttp parses, caches, hands out and drops the form is the real code, on the real serve loop",
+			"a multipart POST (well-formed or malformed) followed by a second request in the same or the next segment; DisablePreParseMultipartForm, ReduceMemoryUsage, StreamRequestBody and a request-body pool size limit on/off; the handler ignores the form, asks for it once or twice, removes the files itself, or asks with MultipartFormWithLimit at the body size and one byte below it; obligations: nothing is left when the next request is dispatched or when the connection is done, every form is removed, at most one parse per request",
+			"the WriteMultipartForm / ReadForm round trip (all inside mime/multipart and os), timed-out requests and the real temporary files are outside; choices only; not re-run natively (the stubs only exist under the engine)",
 		},
 	})
 }
